@@ -109,16 +109,16 @@ Proof.
   destruct r; cbn [fst snd]; unfold set_fs; cbn; rewrite Hfs; repeat split; auto.
 Qed.
 
-Lemma fs_remove_spec S t id w :
-  let ok := fst (fs_remove S t id w) in
-  let w' := snd (fs_remove S t id w) in
+Lemma fs_remove_spec S t pos id w :
+  let ok := fst (fs_remove S t pos id w) in
+  let w' := snd (fs_remove S t pos id w) in
   w_tx w' = w_tx w /\ w_log w' = w_log w /\ w_call w' = w_call w /\
   fs_next (w_fs w') = fs_next (w_fs w) /\ fs_open (w_fs w') = fs_open (w_fs w) /\
   ((ok = true /\ w_faults w' = w_faults w /\ fs_files (w_fs w') = drop_file id (fs_files (w_fs w))) \/
-   (ok = false /\ w_faults w' = mkop (w_ctr w) (w_call w) ORemove t 0 0 :: w_faults w /\
+   (ok = false /\ w_faults w' = mkop (w_ctr w) (w_call w) ORemove t pos 0 :: w_faults w /\
     (fs_files (w_fs w') = fs_files (w_fs w) \/ fs_files (w_fs w') = drop_file id (fs_files (w_fs w))))).
 Proof.
-  unfold fs_remove. dop H S ORemove t 0 0 w.
+  unfold fs_remove. dop H S ORemove t pos 0 w.
   destruct H as (Hr & (Hfs & Htx & Hlog & Hcall) & Hf).
   destruct r as [[|k]|]; cbn [fst snd]; unfold set_fs; cbn; rewrite ?Hfs;
     (split; [auto|]; split; [auto|]; split; [auto|]; split; [auto|]; split; [auto|]).
@@ -130,26 +130,29 @@ Qed.
 (* a Remove that the schedule lets through *)
 Definition no_remove_fault (S : sched) : Prop := forall o, oi_kind o = ORemove -> S o = None.
 
-Lemma fs_remove_nofault S t id w : no_remove_fault S ->
-  fst (fs_remove S t id w) = true /\
-  fs_files (w_fs (snd (fs_remove S t id w))) = drop_file id (fs_files (w_fs w)).
+Lemma fs_remove_nofault S t pos id w : no_remove_fault S ->
+  fst (fs_remove S t pos id w) = true /\
+  fs_files (w_fs (snd (fs_remove S t pos id w))) = drop_file id (fs_files (w_fs w)).
 Proof.
   intro H. unfold fs_remove, do_op.
-  rewrite (H (mkop (w_ctr w) (w_call w) ORemove t 0 0) eq_refl). cbn. split; reflexivity.
+  rewrite (H (mkop (w_ctr w) (w_call w) ORemove t pos 0) eq_refl). cbn. split; reflexivity.
 Qed.
 
 (* ------------------------------------------------------------------------------------------ *)
 (* the transaction state is only changed by the transaction's own code                          *)
 (* ------------------------------------------------------------------------------------------ *)
 
-Lemma remove_all_tx S ids : forall w, w_tx (snd (remove_all S ids w)) = w_tx w.
+Lemma remove_from_tx S ids : forall pos w, w_tx (snd (remove_from S pos ids w)) = w_tx w.
 Proof.
-  induction ids as [|id r IH]; intro w; cbn [remove_all]; [reflexivity|].
-  destruct (fs_remove S TUpload id w) as [ok1 w1] eqn:E1.
-  destruct (remove_all S r w1) as [ok2 w2] eqn:E2. cbn [snd].
-  pose proof (IH w1) as H; rewrite E2 in H; cbn in H. rewrite H.
-  pose proof (fs_remove_spec S TUpload id w) as Hs; rewrite E1 in Hs; cbn in Hs. apply Hs.
+  induction ids as [|id r IH]; intros pos w; cbn [remove_from]; [reflexivity|].
+  destruct (fs_remove S TUpload pos id w) as [ok1 w1] eqn:E1.
+  destruct (remove_from S (Datatypes.S pos) r w1) as [ok2 w2] eqn:E2. cbn [snd].
+  pose proof (IH (Datatypes.S pos) w1) as H; rewrite E2 in H; cbn in H. rewrite H.
+  pose proof (fs_remove_spec S TUpload pos id w) as Hs; rewrite E1 in Hs; cbn in Hs. apply Hs.
 Qed.
+
+Lemma remove_all_tx S ids w : w_tx (snd (remove_all S ids w)) = w_tx w.
+Proof. apply remove_from_tx. Qed.
 
 Lemma bb_reset_buf V S w : t_buf (w_tx (snd (bb_reset V S w))) = bb_init.
 Proof.
@@ -157,13 +160,13 @@ Proof.
   pose proof (fs_close_spec S TSpill id (w_set_buf bb_init w)) as Hc.
   destruct (fs_close S TSpill id (w_set_buf bb_init w)) as [okc w1] eqn:E1. cbn in Hc.
   destruct Hc as (Htx1 & _).
-  assert (Hr : forall w2 okr, fs_remove S TSpill id w1 = (okr, w2) -> t_buf (w_tx w2) = bb_init).
-  { intros w2 okr E2. pose proof (fs_remove_spec S TSpill id w1) as Hr; rewrite E2 in Hr; cbn in Hr.
+  assert (Hr : forall w2 okr, fs_remove S TSpill 0 id w1 = (okr, w2) -> t_buf (w_tx w2) = bb_init).
+  { intros w2 okr E2. pose proof (fs_remove_spec S TSpill 0 id w1) as Hr; rewrite E2 in Hr; cbn in Hr.
     destruct Hr as (Htx2 & _). rewrite Htx2, Htx1. reflexivity. }
   destruct (v_reset_fixed V).
-  - destruct (fs_remove S TSpill id w1) as [okr w2] eqn:E2. cbn. eapply Hr; reflexivity.
+  - destruct (fs_remove S TSpill 0 id w1) as [okr w2] eqn:E2. cbn. eapply Hr; reflexivity.
   - destruct okc.
-    + destruct (fs_remove S TSpill id w1) as [okr w2] eqn:E2. cbn. eapply Hr; reflexivity.
+    + destruct (fs_remove S TSpill 0 id w1) as [okr w2] eqn:E2. cbn. eapply Hr; reflexivity.
     + cbn. rewrite Htx1. reflexivity.
 Qed.
 
@@ -173,13 +176,13 @@ Proof.
   pose proof (fs_close_spec S TSpill id (w_set_buf bb_init w)) as Hc.
   destruct (fs_close S TSpill id (w_set_buf bb_init w)) as [okc w1] eqn:E1. cbn in Hc.
   destruct Hc as (Htx1 & _).
-  assert (Hr : forall w2 okr, fs_remove S TSpill id w1 = (okr, w2) -> w_tx w2 = set_buf bb_init (w_tx w)).
-  { intros w2 okr E2. pose proof (fs_remove_spec S TSpill id w1) as Hr; rewrite E2 in Hr; cbn in Hr.
+  assert (Hr : forall w2 okr, fs_remove S TSpill 0 id w1 = (okr, w2) -> w_tx w2 = set_buf bb_init (w_tx w)).
+  { intros w2 okr E2. pose proof (fs_remove_spec S TSpill 0 id w1) as Hr; rewrite E2 in Hr; cbn in Hr.
     destruct Hr as (Htx2 & _). rewrite Htx2, Htx1. reflexivity. }
   destruct (v_reset_fixed V).
-  - destruct (fs_remove S TSpill id w1) as [okr w2] eqn:E2. cbn. eapply Hr; reflexivity.
+  - destruct (fs_remove S TSpill 0 id w1) as [okr w2] eqn:E2. cbn. eapply Hr; reflexivity.
   - destruct okc.
-    + destruct (fs_remove S TSpill id w1) as [okr w2] eqn:E2. cbn. eapply Hr; reflexivity.
+    + destruct (fs_remove S TSpill 0 id w1) as [okr w2] eqn:E2. cbn. eapply Hr; reflexivity.
     + cbn. rewrite Htx1. reflexivity.
 Qed.
 
@@ -635,9 +638,9 @@ Proof. intro H. exists []. split; [assumption | tauto]. Qed.
 Lemma okspec_one o w w' : w_faults w' = o :: w_faults w -> okspec false w w'.
 Proof. intro H. exists [o]. split; [assumption|]. split; discriminate. Qed.
 
-Lemma fs_remove_okspec S t id w : okspec (fst (fs_remove S t id w)) w (snd (fs_remove S t id w)).
+Lemma fs_remove_okspec S t pos id w : okspec (fst (fs_remove S t pos id w)) w (snd (fs_remove S t pos id w)).
 Proof.
-  pose proof (fs_remove_spec S t id w) as H. destruct (fs_remove S t id w) as [ok w1]; cbn in *.
+  pose proof (fs_remove_spec S t pos id w) as H. destruct (fs_remove S t pos id w) as [ok w1]; cbn in *.
   destruct H as (_ & _ & _ & _ & _ & [(-> & Hf & _)|(-> & Hf & _)]);
     [apply okspec_same | eapply okspec_one]; eassumption.
 Qed.
@@ -649,15 +652,18 @@ Proof.
     [apply okspec_same | eapply okspec_one]; eassumption.
 Qed.
 
-Lemma remove_all_okspec S ids : forall w, okspec (fst (remove_all S ids w)) w (snd (remove_all S ids w)).
+Lemma remove_from_okspec S ids : forall pos w, okspec (fst (remove_from S pos ids w)) w (snd (remove_from S pos ids w)).
 Proof.
-  induction ids as [|id r IH]; intro w; cbn [remove_all].
+  induction ids as [|id r IH]; intros pos w; cbn [remove_from].
   - apply okspec_same; reflexivity.
-  - pose proof (fs_remove_okspec S TUpload id w) as H1.
-    destruct (fs_remove S TUpload id w) as [ok1 w1]. cbn in H1.
-    pose proof (IH w1) as H2. destruct (remove_all S r w1) as [ok2 w2]. cbn in *.
+  - pose proof (fs_remove_okspec S TUpload pos id w) as H1.
+    destruct (fs_remove S TUpload pos id w) as [ok1 w1]. cbn in H1.
+    pose proof (IH (Datatypes.S pos) w1) as H2. destruct (remove_from S (Datatypes.S pos) r w1) as [ok2 w2]. cbn in *.
     eapply okspec_seq; eassumption.
 Qed.
+
+Lemma remove_all_okspec S ids w : okspec (fst (remove_all S ids w)) w (snd (remove_all S ids w)).
+Proof. apply remove_from_okspec. Qed.
 
 Lemma bb_reset_okspec V S w : okspec (fst (bb_reset V S w)) w (snd (bb_reset V S w)).
 Proof.
@@ -666,13 +672,13 @@ Proof.
   assert (H0 : okspec true w w0) by (apply okspec_same; reflexivity).
   pose proof (fs_close_okspec S TSpill id w0) as H1.
   destruct (fs_close S TSpill id w0) as [okc w1]. cbn in H1.
-  pose proof (fs_remove_okspec S TSpill id w1) as H2.
+  pose proof (fs_remove_okspec S TSpill 0 id w1) as H2.
   destruct (v_reset_fixed V).
-  - destruct (fs_remove S TSpill id w1) as [okr w2]. cbn in *.
+  - destruct (fs_remove S TSpill 0 id w1) as [okr w2]. cbn in *.
     rewrite andb_comm. change (okc && okr) with (true && (okc && okr)).
     eapply okspec_seq; [exact H0|]. eapply okspec_seq; eassumption.
   - destruct okc.
-    + destruct (fs_remove S TSpill id w1) as [okr w2]. cbn in *.
+    + destruct (fs_remove S TSpill 0 id w1) as [okr w2]. cbn in *.
       change okr with (true && (true && okr)).
       eapply okspec_seq; [exact H0|]. eapply okspec_seq; eassumption.
     + cbn. change false with (true && false). eapply okspec_seq; eassumption.
@@ -804,9 +810,9 @@ Proof.
   eapply inv_files; [exact I | reflexivity | intros f If; exists f; auto | lia].
 Qed.
 
-Lemma fs_remove_inv n0 files0 S t id w : n0 <= id -> winv n0 files0 w -> winv n0 files0 (snd (fs_remove S t id w)).
+Lemma fs_remove_inv n0 files0 S t pos id w : n0 <= id -> winv n0 files0 w -> winv n0 files0 (snd (fs_remove S t pos id w)).
 Proof.
-  intros L I. pose proof (fs_remove_spec S t id w) as H. destruct (fs_remove S t id w) as [ok w1]; cbn in *.
+  intros L I. pose proof (fs_remove_spec S t pos id w) as H. destruct (fs_remove S t pos id w) as [ok w1]; cbn in *.
   destruct H as (Htx & _ & _ & Hn & Ho & H).
   unfold winv. rewrite Htx. destruct (w_fs w1) as [files1 next1 open1]; cbn in *. subst.
   assert (D : inv n0 files0 (mkfs (drop_file id (fs_files (w_fs w))) (fs_next (w_fs w)) (fs_open (w_fs w))) (w_tx w)).
@@ -1025,24 +1031,32 @@ End InvWithParser.
 
 (* ---- Close removes every owned file when no Remove fails ---- *)
 
+Lemma remove_from_files S ids : no_remove_fault S -> forall pos w,
+  let w' := snd (remove_from S pos ids w) in
+  w_tx w' = w_tx w /\
+  (forall f, In f (fs_files (w_fs w')) <-> In f (fs_files (w_fs w)) /\ ~ In (f_id f) ids) /\
+  (forall n0, (forall x, In x ids -> n0 <= x) ->
+     filter (low n0) (fs_files (w_fs w')) = filter (low n0) (fs_files (w_fs w))).
+Proof.
+  intro NR. induction ids as [|id r IH]; intros pos w; cbn [remove_from].
+  - cbn. repeat split; auto; tauto.
+  - destruct (fs_remove_nofault S TUpload pos id w NR) as [_ Hf].
+    pose proof (fs_remove_spec S TUpload pos id w) as Hs.
+    destruct (fs_remove S TUpload pos id w) as [ok1 w1]; cbn in Hf, Hs. destruct Hs as (Htx1 & _).
+    specialize (IH (Datatypes.S pos) w1). destruct (remove_from S (Datatypes.S pos) r w1) as [ok2 w2]. cbn in *.
+    destruct IH as (I1 & I2 & I3). split; [congruence|]. split.
+    + intro f. rewrite I2, Hf, in_drop_file. intuition.
+    + intros n0 Hn. rewrite I3, Hf by (intros x Hx; apply Hn; auto).
+      apply filter_low_drop. apply Hn; auto.
+Qed.
+
 Lemma remove_all_files S ids : no_remove_fault S -> forall w,
   let w' := snd (remove_all S ids w) in
   w_tx w' = w_tx w /\
   (forall f, In f (fs_files (w_fs w')) <-> In f (fs_files (w_fs w)) /\ ~ In (f_id f) ids) /\
   (forall n0, (forall x, In x ids -> n0 <= x) ->
      filter (low n0) (fs_files (w_fs w')) = filter (low n0) (fs_files (w_fs w))).
-Proof.
-  intro NR. induction ids as [|id r IH]; intro w; cbn [remove_all].
-  - cbn. repeat split; auto; tauto.
-  - destruct (fs_remove_nofault S TUpload id w NR) as [_ Hf].
-    pose proof (fs_remove_spec S TUpload id w) as Hs.
-    destruct (fs_remove S TUpload id w) as [ok1 w1]; cbn in Hf, Hs. destruct Hs as (Htx1 & _).
-    specialize (IH w1). destruct (remove_all S r w1) as [ok2 w2]. cbn in *.
-    destruct IH as (I1 & I2 & I3). split; [congruence|]. split.
-    + intro f. rewrite I2, Hf, in_drop_file. intuition.
-    + intros n0 Hn. rewrite I3, Hf by (intros x Hx; apply Hn; auto).
-      apply filter_low_drop. apply Hn; auto.
-Qed.
+Proof. intros NR w. apply remove_from_files. exact NR. Qed.
 
 Lemma bb_reset_files V S w : v_reset_fixed V = true -> no_remove_fault S ->
   fs_files (w_fs (snd (bb_reset V S w))) =
@@ -1052,8 +1066,8 @@ Proof.
   pose proof (fs_close_spec S TSpill id (w_set_buf bb_init w)) as Hc.
   destruct (fs_close S TSpill id (w_set_buf bb_init w)) as [okc w1]. cbn in Hc.
   destruct Hc as (_ & _ & _ & Hf1 & _).
-  destruct (fs_remove_nofault S TSpill id w1 NR) as [_ Hf].
-  destruct (fs_remove S TSpill id w1) as [okr w2]. cbn in *. rewrite Hf, Hf1. reflexivity.
+  destruct (fs_remove_nofault S TSpill 0 id w1 NR) as [_ Hf].
+  destruct (fs_remove S TSpill 0 id w1) as [okr w2]. cbn in *. rewrite Hf, Hf1. reflexivity.
 Qed.
 
 Lemma filter_all {A} (P : A -> bool) l : (forall x, In x l -> P x = true) -> filter P l = l.
@@ -1238,9 +1252,9 @@ Proof.
   destruct Hs as (_ & _ & _ & Hn & Ho & _). eapply hbase_same; eassumption.
 Qed.
 
-Lemma fs_remove_h S t id w pre base : hbase pre base (w_fs w) -> hbase pre base (w_fs (snd (fs_remove S t id w))).
+Lemma fs_remove_h S t pos id w pre base : hbase pre base (w_fs w) -> hbase pre base (w_fs (snd (fs_remove S t pos id w))).
 Proof.
-  intro H. pose proof (fs_remove_spec S t id w) as Hs. destruct (fs_remove S t id w) as [ok w1]; cbn in *.
+  intro H. pose proof (fs_remove_spec S t pos id w) as Hs. destruct (fs_remove S t pos id w) as [ok w1]; cbn in *.
   destruct Hs as (_ & _ & _ & Hn & Ho & _). eapply hbase_same; eassumption.
 Qed.
 
@@ -1466,13 +1480,16 @@ Qed.
 
 End HandlesWithParser.
 
-Lemma remove_all_h S ids : forall w pre base, hbase pre base (w_fs w) -> hbase pre base (w_fs (snd (remove_all S ids w))).
+Lemma remove_from_h S ids : forall pos w pre base, hbase pre base (w_fs w) -> hbase pre base (w_fs (snd (remove_from S pos ids w))).
 Proof.
-  induction ids as [|id r IH]; intros w pre base H; cbn [remove_all]; [exact H|].
-  pose proof (fs_remove_h S TUpload id w pre base H) as H1.
-  destruct (fs_remove S TUpload id w) as [ok1 w1]. cbn in H1.
-  specialize (IH w1 pre base H1). destruct (remove_all S r w1) as [ok2 w2]. exact IH.
+  induction ids as [|id r IH]; intros pos w pre base H; cbn [remove_from]; [exact H|].
+  pose proof (fs_remove_h S TUpload pos id w pre base H) as H1.
+  destruct (fs_remove S TUpload pos id w) as [ok1 w1]. cbn in H1.
+  specialize (IH (Datatypes.S pos) w1 pre base H1). destruct (remove_from S (Datatypes.S pos) r w1) as [ok2 w2]. exact IH.
 Qed.
+
+Lemma remove_all_h S ids w pre base : hbase pre base (w_fs w) -> hbase pre base (w_fs (snd (remove_all S ids w))).
+Proof. apply remove_from_h. Qed.
 
 Lemma bb_reset_h V S w open0 : whinv open0 w -> hbase [] open0 (w_fs (snd (bb_reset V S w))).
 Proof.
@@ -1482,10 +1499,10 @@ Proof.
   assert (I0 : hbase [id] open0 (w_fs w0)) by exact I.
   pose proof (fs_close_h S TSpill id w0 [] open0 I0) as H1.
   destruct (fs_close S TSpill id w0) as [okc w1]. cbn in H1.
-  pose proof (fs_remove_h S TSpill id w1 [] open0 H1) as H2.
+  pose proof (fs_remove_h S TSpill 0 id w1 [] open0 H1) as H2.
   destruct (v_reset_fixed V).
-  - destruct (fs_remove S TSpill id w1) as [okr w2]. exact H2.
-  - destruct okc; [|exact H1]. destruct (fs_remove S TSpill id w1) as [okr w2]. exact H2.
+  - destruct (fs_remove S TSpill 0 id w1) as [okr w2]. exact H2.
+  - destruct okc; [|exact H1]. destruct (fs_remove S TSpill 0 id w1) as [okr w2]. exact H2.
 Qed.
 
 Definition fs_hwf (fs : fsys) : Prop := NoDup (fs_open fs) /\ (forall x, In x (fs_open fs) -> x < fs_next fs).
